@@ -13,6 +13,7 @@ PROP = dict(
          'the tree or is refused; distinct by the whole input',
     explanation='per step Coq evaluates: model step = observed step (result class, operation log, file tree, kernel table, '
                 'layer states) and the C02 predicate on the observed worlds',
-    assumptions=['layer names are ASCII (Unicode letter classes are outside the model)',
+    assumptions=['constants regenerated from the source on every run (Gen/Consts.v) that the predicate or the documented part of the model rests on -- LayerconfigFile, SkeletonLayerconfigFile(+Ext), SkeletonLayerconfig, RemovedLayerSuffix, MinimalBuildDirs, ExportIndexHtml(Name), BaseLayerRootBashrc -- are compared with literals by theorem C02_constants_pinned: an edit of one of them is reported (proof obligation no longer checks) and has to be reviewed; values the manual does not state are the values of the reviewed tree',
+        'layer names are ASCII (Unicode letter classes are outside the model)',
                  'one local file system; symlinks resolved for the last component only'],
 )
